@@ -670,7 +670,8 @@ bool GlobalGraph::nodesAreMetOnlyOnce_(const GlobalGraph::Node& node, set<Global
   vector<Graph::NodeId> neighbors = getOutgoingNeighbors(node);
   for (auto currNeighbor:neighbors)
   {
-    if (currNeighbor == originNode)
+    // only an undirected relation is listed again from its other end
+    if (!directed_ && currNeighbor == originNode)
       continue;
     if (!nodesAreMetOnlyOnce_(currNeighbor, metNodes, node))
       return false;
